@@ -1,9 +1,10 @@
 (* driver for m_prangeshare (property C37, sharing classification of prange / parallel blocks)
    ompops                                   -> the operator string of generate_loop, e.g. +*-&^|
-   classify <nvars> <region>                -> E=<error codes> C=<clause per variable> W=<definitely assigned, or X>
+   classify <fx> <nvars> <region>           -> E=<error codes> C=<clause per variable> W=<definitely assigned, or X>
    run <w> <s> <e0> <idxs> <chunks> <region> -> P=<values per variable, parallel> S=<... sequential>
         e0, idxs: comma lists; chunks: comma lists joined by '|' ('-' = empty chunk); the number of
         variables is the length of e0; lastv = last idx
+   fx: three characters 0/1 = proposed repairs fx_ops fx_nest fx_rhs (000 = the code as it is)
    region tokens (prefix form):  R <pre|N> <tgt> <stmt>
      stmt: K | Q s s | A x e | I x op e | F e s s | L <0|1> x e s
      expr: c <z> | v <x> | b <op> e e *)
@@ -42,7 +43,8 @@ let p_region = function
        | [] -> failwith "region")
   | _ -> failwith "region"
 
-let err_chr = function EInconsistent -> "I" | EReadReduction -> "R" | EOuterPrivate -> "O" | EBlockReduction -> "B"
+let err_chr = function EInconsistent -> "I" | EReadReduction -> "R" | EOuterPrivate -> "O" | EBlockReduction -> "B" | EUnsupportedOp -> "U"
+let fx_of s = { fx_ops = (s.[0] = '1'); fx_nest = (s.[1] = '1'); fx_rhs = (s.[2] = '1') }
 let clause_str = function
   | CRed o -> "r" ^ iop_chr o | CFirstLast -> "fl" | CBlockPriv -> "bp" | CShared -> "sh"
 let rec upto n = if n <= 0 then [] else upto (n - 1) @ [n - 1]
@@ -53,12 +55,13 @@ let env_of (l : z list) : nat -> z =
 
 let handle = function
   | ["ompops"] -> String.concat "" (List.map iop_chr omp_ops)
-  | "classify" :: nv :: rt ->
+  | "classify" :: fx :: nv :: rt ->
       let r = p_region rt in
+      let fx = fx_of fx in
       let n = int_of_string nv in
-      let errs = List.sort_uniq compare (List.map err_chr (region_errors r)) in
+      let errs = List.sort_uniq compare (List.map err_chr (region_errors fx r)) in
       let cl = List.map (fun i -> clause_str (classify r (nat_of_int i))) (upto n) in
-      let wf = match region_wf r with
+      let wf = match region_wf fx r with
         | None -> "X"
         | Some d -> let l = List.sort_uniq compare (List.map int_of_nat d) in
             if l = [] then "-" else String.concat "," (List.map string_of_int l) in
